@@ -187,4 +187,191 @@ theorem facetCount_aux (names : Nat → List Int) (docs : List Nat)
       · rw [dictGet_update_other _ _ _ _ _ _ hv, dictGet_update_other _ _ _ _ _ _ hv]
         exact h v''
 
+
+/-! ### `OrderedList` and `Best` group maps -/
+
+theorem dictGet_map {α β : Type} (g : α → β) (v : Int) (dflt : α) (m : List (Int × α)) :
+    dictGet v (g dflt) (m.map fun p => (p.1, g p.2)) = g (dictGet v dflt m) := by
+  induction m with
+  | nil => rfl
+  | cons kv rest ih =>
+    obtain ⟨k, x⟩ := kv
+    simp only [List.map_cons, dictGet_cons]
+    split
+    · rfl
+    · exact ih
+
+/-- The raw `OrderedList` map holds, per group, `(sortkey, doc)` of the members in collection order. -/
+theorem facetOrdered_aux (names : Nat → List Int) (skey : Nat → Key) (docs : List Nat)
+    (mo : List (Int × List (Key × Nat))) (mu : List (Int × List Nat))
+    (h : ∀ v, dictGet v [] mo = (dictGet v [] mu).map fun d => (skey d, d)) (v : Int) :
+    dictGet v [] (docs.foldl (fun m d => facetAddOrdered (names d) (skey d) d m) mo) =
+      (dictGet v [] (docs.foldl (fun m d => (names d).foldl (fun m n => dictUpdate n [] (fun l => l ++ [d]) m) m) mu)).map
+        fun d => (skey d, d) := by
+  induction docs generalizing mo mu with
+  | nil => exact h v
+  | cons d ds ih =>
+    simp only [List.foldl_cons]
+    apply ih
+    intro v'
+    unfold facetAddOrdered
+    generalize names d = ns
+    induction ns generalizing mo mu with
+    | nil => exact h v'
+    | cons n ns ih2 =>
+      simp only [List.foldl_cons]
+      apply ih2
+      intro v''
+      by_cases hv : v'' = n
+      · subst hv
+        rw [dictGet_update_same, dictGet_update_same, h]
+        simp
+      · rw [dictGet_update_other _ _ _ _ _ _ hv, dictGet_update_other _ _ _ _ _ _ hv]
+        exact h v''
+
+/-- Lookup without a default (`name in dict`). -/
+def dictFind {α : Type} (name : Int) (m : List (Int × α)) : Option α :=
+  (m.find? (fun p => p.1 == name)).map (·.2)
+
+theorem dictGet_eq_find {α : Type} (n : Int) (dflt : α) (m : List (Int × α)) :
+    dictGet n dflt m = (dictFind n m).getD dflt := by
+  unfold dictGet dictFind
+  cases m.find? (fun p => p.1 == n) <;> rfl
+
+theorem dictFind_cons {α : Type} (n k : Int) (v : α) (m : List (Int × α)) :
+    dictFind n ((k, v) :: m) = if k == n then some v else dictFind n m := by
+  simp only [dictFind, List.find?_cons]
+  cases h : (k == n) <;> simp
+
+theorem dictFind_update_same {α : Type} (n : Int) (dflt : α) (f : α → α) (m : List (Int × α)) :
+    dictFind n (dictUpdate n dflt f m) = some (f ((dictFind n m).getD dflt)) := by
+  induction m with
+  | nil => simp [dictUpdate, dictFind_cons, dictFind]
+  | cons kv rest ih =>
+    obtain ⟨k, v⟩ := kv
+    simp only [dictUpdate]
+    by_cases h : (k == n) = true
+    · simp [h, dictFind_cons]
+    · rw [if_neg h, dictFind_cons, dictFind_cons, if_neg h, if_neg h]; exact ih
+
+theorem dictFind_update_other {α : Type} (n n' : Int) (dflt : α) (f : α → α) (m : List (Int × α))
+    (hne : n' ≠ n) : dictFind n' (dictUpdate n dflt f m) = dictFind n' m := by
+  induction m with
+  | nil =>
+    have : (n == n') = false := by simpa using (Ne.symm hne)
+    simp [dictUpdate, dictFind_cons, this, dictFind]
+  | cons kv rest ih =>
+    obtain ⟨k, v⟩ := kv
+    simp only [dictUpdate]
+    by_cases h : (k == n) = true
+    · have hk : k = n := by simpa using h
+      have : (k == n') = false := by subst hk; simpa using (Ne.symm hne)
+      simp [h, dictFind_cons, this]
+    · rw [if_neg h, dictFind_cons, dictFind_cons, ih]
+
+/-- `b = (skey d, d)` for the first member `d` of `members` whose key is minimal: every earlier
+    member has a strictly greater key, every later one a key at least as great. -/
+def FirstMin (skey : Nat → Key) (members : List Nat) (b : Key × Nat) : Prop :=
+  b.1 = skey b.2 ∧ ∃ pre post, members = pre ++ b.2 :: post ∧
+    (∀ d ∈ pre, keyLe (skey d) b.1 = false) ∧ (∀ d ∈ post, keyLe b.1 (skey d) = true)
+
+/-- `Best.add` keeps `FirstMin`. -/
+theorem FirstMin.step {skey : Nat → Key} {members : List Nat} {b : Key × Nat} (h : FirstMin skey members b)
+    (d : Nat) :
+    FirstMin skey (members ++ [d])
+      (if keyLe (skey d) b.1 && !keyLe b.1 (skey d) then (skey d, d) else b) := by
+  obtain ⟨hb, pre, post, hm, hpre, hpost⟩ := h
+  by_cases hc : (keyLe (skey d) b.1 && !keyLe b.1 (skey d)) = true
+  · rw [if_pos hc]
+    simp only [Bool.and_eq_true, Bool.not_eq_true'] at hc
+    refine ⟨rfl, members, [], by simp, ?_, by simp⟩
+    intro x hx
+    simp only
+    cases hxd : keyLe (skey x) (skey d) with
+    | false => rfl
+    | true =>
+      exfalso
+      rw [hm] at hx
+      rcases List.mem_append.mp hx with hx | hx
+      · have := keyLe_trans _ _ _ hxd hc.1
+        rw [hpre x hx] at this; cases this
+      · rcases List.mem_cons.mp hx with hx | hx
+        · subst hx; rw [← hb, hc.2] at hxd; cases hxd
+        · have := keyLe_trans _ _ _ (hpost x hx) hxd
+          rw [hc.2] at this; cases this
+  · rw [if_neg hc]
+    refine ⟨hb, pre, post ++ [d], by rw [hm]; simp, hpre, ?_⟩
+    intro x hx
+    rcases List.mem_append.mp hx with hx | hx
+    · exact hpost x hx
+    · have : x = d := by simpa using hx
+      subst this
+      rcases keyLe_total b.1 (skey x) with h | h
+      · exact h
+      · simp only [Bool.and_eq_true, Bool.not_eq_true', not_and, Bool.not_eq_false] at hc
+        exact hc h
+
+/-- The `Best` map against the `UnorderedList` map: same groups, and the value of a group is the
+    first minimum of its members. -/
+theorem facetBest_aux (names : Nat → List Int) (skey : Nat → Key) (docs : List Nat)
+    (mb : List (Int × (Key × Nat))) (mu : List (Int × List Nat))
+    (h : ∀ v, (dictFind v mu = none → dictFind v mb = none) ∧
+      (∀ members, dictFind v mu = some members → members ≠ [] ∧ ∃ b, dictFind v mb = some b ∧ FirstMin skey members b))
+    (v : Int) :
+    (dictFind v (docs.foldl (fun m d => (names d).foldl (fun m n => dictUpdate n [] (fun l => l ++ [d]) m) m) mu) = none →
+      dictFind v (docs.foldl (fun m d => (names d).foldl (fun m n =>
+        dictUpdate n (skey d, d) (fun cur => if keyLe (skey d) cur.1 && !keyLe cur.1 (skey d) then (skey d, d) else cur) m) m) mb) = none) ∧
+    (∀ members, dictFind v (docs.foldl (fun m d => (names d).foldl (fun m n => dictUpdate n [] (fun l => l ++ [d]) m) m) mu) = some members →
+      members ≠ [] ∧ ∃ b, dictFind v (docs.foldl (fun m d => (names d).foldl (fun m n =>
+        dictUpdate n (skey d, d) (fun cur => if keyLe (skey d) cur.1 && !keyLe cur.1 (skey d) then (skey d, d) else cur) m) m) mb) = some b ∧
+        FirstMin skey members b) := by
+  induction docs generalizing mb mu with
+  | nil => exact h v
+  | cons d ds ih =>
+    simp only [List.foldl_cons]
+    apply ih
+    intro v'
+    generalize names d = ns
+    induction ns generalizing mb mu with
+    | nil => exact h v'
+    | cons n ns ih2 =>
+      simp only [List.foldl_cons]
+      apply ih2
+      intro v''
+      by_cases hv : v'' = n
+      · subst hv
+        rw [dictFind_update_same, dictFind_update_same]
+        refine ⟨fun hn => (by cases hn), ?_⟩
+        intro members hmem
+        have hmem' : members = (dictFind v'' mu).getD [] ++ [d] := by
+          simpa using hmem.symm
+        subst hmem'
+        refine ⟨by simp, _, rfl, ?_⟩
+        cases hfu : dictFind v'' mu with
+        | none =>
+          rw [(h v'').1 hfu]
+          simp only [Option.getD_none, List.nil_append, keyLe_refl, Bool.not_true, Bool.and_false,
+            Bool.false_eq_true, if_false]
+          exact ⟨rfl, [], [], rfl, by simp, by simp⟩
+        | some ms =>
+          obtain ⟨_, b, hb, hfm⟩ := (h v'').2 ms hfu
+          rw [hb]
+          simp only [Option.getD_some]
+          exact hfm.step d
+      · rw [dictFind_update_other _ _ _ _ _ hv, dictFind_update_other _ _ _ _ _ hv]
+        exact h v''
+
+theorem pair_sublist_of_mem {α : Type} {l : List α} {a b : α} (ha : a ∈ l) (hb : b ∈ l) (hab : a ≠ b) :
+    [a, b].Sublist l ∨ [b, a].Sublist l := by
+  obtain ⟨s, t, rfl⟩ := List.append_of_mem ha
+  rcases List.mem_append.mp hb with h | h
+  · right
+    exact (List.singleton_sublist.mpr h).append (List.singleton_sublist.mpr (List.mem_cons_self))
+  · left
+    have ht : b ∈ t := by
+      rcases List.mem_cons.mp h with h | h
+      · exact absurd h.symm hab
+      · exact h
+    exact ((List.singleton_sublist.mpr ht).cons_cons a).trans (List.sublist_append_right s _)
+
 end WM.Collect
